@@ -200,6 +200,8 @@ def c04(ev, tier, seed):
     rp_traces(ev, "C04", seed, 2000 if tier == "thorough" else 200)
     # stream parser half: replies interleaved with consume_output(k)
     sp_model(ev, "C04", seed, "replies", 24, ["replies"], "tiny" if tier == "quick" else "quick", [2], ops=("co", "c", "ss"))
+    # every ordered pair of adjacent reply-producing records (state left behind by one must not leak into the next)
+    sp_model(ev, "C04", seed, "replies2", 24, ["replies2"], "tiny" if tier == "quick" else "quick", [2], ops=("co", "c") if tier == "quick" else ("co", "c", "ss"))
     chain_traces(ev, "C04", seed, 1500 if tier == "thorough" else 100)
     ev.exhaustive = False
     ev.assumptions = ["an unknown-type record is answered with the record's own request id (what the code and its test do)",
